@@ -317,6 +317,20 @@ def n1(ck: Check) -> None:
     ifm = prog.model(iv)
     srt = [n for n in own_walk(iv.node) if isinstance(n, ast.Call) and callee_name(n) == "sorted"]
     nested = [n for n in srt if any(isinstance(c, ast.Call) and callee_name(c) == "sorted" and c is not n for c in ast.walk(n))]
+    if not nested:
+        # the same in two statements: `xs = [sorted(x.items()) for x in c]; xs = sorted(xs)` (also written xs.sort())
+        import copy as _copy
+        for n in srt:
+            a0 = n.args[0] if n.args else None
+            if isinstance(a0, ast.Name):
+                try:
+                    dv = ifm.single_def(a0.id, ifm.cfgn(n))
+                except AnalysisError:
+                    dv = None
+                if dv and any(isinstance(c, ast.Call) and callee_name(c) == "sorted" for c in ast.walk(dv[1])):
+                    m = _copy.copy(n)
+                    m.args = [dv[1]] + list(n.args[1:])
+                    nested.append(m)
     def total(c_: ast.Call) -> bool:
         """sorted() by the elements themselves: a key that does not separate all elements leaves ties in arrival order"""
         k = next((kw.value for kw in c_.keywords if kw.arg == "key"), None)
@@ -615,6 +629,24 @@ def n2(ck: Check) -> None:
             if isinstance(v, ast.Name):
                 sd = g.single_def(v.id, g.cfgn(r))
                 v = sd[1] if sd else v
+            # a selection from a sorted list, in its order: [x for x in <call that returns a sorted list> if ...]
+            if isinstance(v, ast.ListComp) and len(v.generators) == 1 and isinstance(v.generators[0].target, ast.Name) \
+                    and isinstance(v.elt, ast.Name) and v.elt.id == v.generators[0].target.id:
+                it_ = v.generators[0].iter
+                if isinstance(it_, ast.Name):
+                    sd2 = g.single_def(it_.id, g.cfgn(r))
+                    it_ = sd2[1] if sd2 else it_
+                tgt_ = prog.repo.resolve_call(g.f, it_) if isinstance(it_, ast.Call) else None
+                if tgt_ and not tgt_.startswith("ext:"):
+                    h_ = prog.repo.functions[tgt_]
+                    rs_ = [r2 for r2 in own_walk(h_.node) if isinstance(r2, ast.Return) and r2.value is not None]
+                    def _srt(e, hm=prog.model(h_)):
+                        if isinstance(e, ast.Name):
+                            sd3 = hm.single_def(e.id, hm.cfgn(e))
+                            e = sd3[1] if sd3 else e
+                        return isinstance(e, ast.Call) and callee_name(e) == "sorted"
+                    if rs_ and all(_srt(r2.value) for r2 in rs_):
+                        continue
             if not (isinstance(v, ast.Call) and callee_name(v) == "sorted"):
                 okr = False
         ck.ob("N2", g, g.f.node, okr, f"{q} returns a sorted list" if okr else
